@@ -62,6 +62,27 @@ class Engine:
         self.class_ids: dict = {}
         from . import lib
         lib.install(self)
+        self.preregister()
+
+    def preregister(self):
+        """Register the heap arrays of every schema field (and of the container kinds they mention)
+        so that `modifies` patterns can be expanded before the arrays are first touched."""
+        def reg_kind(k):
+            if isinstance(k, KList):
+                self.lnames(k)
+                reg_kind(k.elem)
+            elif isinstance(k, KDict):
+                self.dnames(k)
+                reg_kind(k.v)
+            elif isinstance(k, KSet):
+                self.snames(k)
+        for cls, fields in list(self.reg.schemas.items()):
+            for f in fields:
+                try:
+                    name, kind = self.fname(cls, f)
+                    reg_kind(kind)
+                except Unsupported:
+                    pass
 
     # ---------------------------------------------------------------------------------------
     # kinds / types
